@@ -7158,10 +7158,7 @@ impl Display for MySQLColumnPosition {
     fn fmt(&self, f: &mut fmt::Formatter) -> fmt::Result {
         match self {
             MySQLColumnPosition::First => Ok(write!(f, "FIRST")?),
-            MySQLColumnPosition::After(ident) => {
-                let column_name = &ident.value;
-                Ok(write!(f, "AFTER {column_name}")?)
-            }
+            MySQLColumnPosition::After(ident) => Ok(write!(f, "AFTER {ident}")?),
         }
     }
 }
